@@ -170,4 +170,14 @@ CHECKS = {
            'shards': {'quick': 8, 'thorough': 16},
            'timeout': {'quick': 600, 'thorough': 7200},
            'shrinktime': '60s'}]},
+    'C17': {'level': 'exploration',
+ 'assumptions': ["'every valid Protobuf file' is approximated by FileDescriptorProtos built by construction and validated with protodesc (no protoc/buf in the "
+                 'sandbox); Go-name collisions that protoc itself permits are excluded from the domain',
+                 "type-checking uses go/types with the export data of /repo's current connect package and of the protoc-gen-go (v1.28.0) output"],
+ 'jobs': [{'pkg': 'c17',
+           'run': 'TestDescriptors',
+           'checks': {'quick': 640, 'thorough': 32000},
+           'shards': {'quick': 16, 'thorough': 16},
+           'timeout': {'quick': 600, 'thorough': 3600}},
+          {'pkg': 'c17', 'run': 'TestCheckedIn'}]},
 }
